@@ -6,7 +6,7 @@ from hypothesis import strategies as st
 from lib import gens, refgeo, refids
 from lib.runner import Stage, Violation, hyp_drive, guarded, HarnessError
 
-RULE = ("cells: all cells of res 0..3 (quick) / 0..5 (thorough); Hypothesis cells of res 4..29 by id construction (structured "
+RULE = ("cells: all cells of res 0..4 (quick) / 0..6 (thorough); Hypothesis cells of res 4..29 by id construction (structured "
         "S) and by location (poles, frame points and their neighbourhoods, antimeridian, uniform). Oracle: rings from "
         "cell_to_boundary at k and 2k segments per edge (k=32), geodetic->authalic latitude by the closed WGS84 form, spherical "
         "area (3-D Van Oosterom-Strackee fan for res<9, Lambert-from-differences beyond; both computed and cross-checked for "
@@ -89,7 +89,7 @@ def judge_cell(cell, col, cls, enumerated=False):
 
 
 def stage_enum(ctx):
-    maxres = 3 if ctx.tier == "quick" else 5
+    maxres = 4 if ctx.tier == "quick" else 6
     for res in range(0, maxres + 1):
         for cell in refids.children(0, res)[ctx.shard::ctx.nshards]:
             judge_cell(cell, ctx.col, "enum", enumerated=True)
